@@ -115,9 +115,9 @@ def run(run, tier):
     sim_part(run, EoN, tier, stats)
     if not props['ok']:
         run.violation('C14/proof', 'Props/C14.v no longer checks: %s' % props['log'][-400:], {'broken': 'coq/Props/C14.v', 'log': props['log']}, no_input=True)
-    n_eval = int(ode.get('comparisons', ode.get('evaluations', 0)) or 0) + stats.get('sim_comparisons', 0)
+    n_eval = int((ode.get('counts') or {}).get('comparisons', 0) or 0) + stats.get('sim_comparisons', 0)
     samples = (ode.get('samples') or [])[:2] + [{'simulators': stats}]
-    C.proof_coverage(run, props, max(1, n_eval), max(2, min(n_eval, int(ode.get('distinct_nontrivial', n_eval) or n_eval) + stats.get('sim_comparisons', 0))),
+    C.proof_coverage(run, props, max(1, n_eval), max(2, int((ode.get('counts') or {}).get('agree', 0) or 0) + stats.get('sim_comparisons', 0)),
                      'ODE half: every graph-consuming entry point on a base graph (labels 0..N-1, natural order) and 3 relabelled (permuted ints / strings / tuples) + insertion-order-permuted copies, aggregated series compared directly, '
                      'per-node series through the relabelling (+ an unrelated edge attribute named weight). Simulator half: fast_nonMarkov_SIR / fast_nonMarkov_SIS with table delay rules (distinct times) and discrete_SIR with a '
                      'table transmission test, on a graph and 3 relabelled + re-ordered copies, per-node histories compared through the relabelling. Non-trivial = a completed comparison.',
